@@ -199,6 +199,7 @@ def explore(ctx):
             continue
         shape = tuple(c['shape'])
         history = ['compute']
+        others = []
         cur_delta = c.get('delta', 0)
         for k in range(rng.randint(1, 4)):
             step = dc.rand_prune_step(rng, c, cur_delta)
@@ -213,12 +214,17 @@ def explore(ctx):
                 ctx.oracle_failure({'case': c, 'history': history}, ['cannot read state: %r' % (e,)])
                 break
             nb = len(d)
+            peek = rng.random() < 0.25
             try:
-                d.prune(**dc.prune_kwargs(c, step))
+                kwp = dc.prune_kwargs(c, step)
+                d.prune(**(dc.with_peeking(kwp) if peek else kwp))
+                if rng.random() < 0.3:
+                    # other dendrograms computed and pruned meanwhile (and still alive) are none of this one's business
+                    others.append(dc.other_dendrogram_activity(rng))
             except Exception as e:
                 ctx.oracle_failure({'case': c, 'history': history + [step]}, ['prune raised %r' % (e,)])
                 break
-            history = history + [step]
+            history = history + [step] + (['(with a criterion that reads level / descendants)'] if peek else [])
             cur_delta = max(cur_delta, step.get('delta', 0))
             fails, after = oracle_step(c, before, d, step)
             ctx.count('prune_calls')
